@@ -111,6 +111,14 @@ def consumer_cases(rnd, vals, count):
         k = rnd.random()
         if k < 0.3:
             a, b = rnd.choice(vals), rnd.choice(vals)
+            if rnd.random() < 0.35:
+                # numbers that are close but not equal: == is the sign test of the comparison, not a tolerance test
+                a, b = rnd.choice([(0.1 + 0.2, 0.3), (1e9, 1e9 + 1), (1700000000000, 1700000000001), (1.0, 1.0 + 1e-12), (1e15, 1e15 + 1),
+                                   (2.0 ** 53, 2.0 ** 53 + 2), (1e-300, 2e-300), (5e-324, 0.0), (123456789.125, 123456789.25), (-1e9, -1e9 - 1)])
+                if rnd.random() < 0.5:
+                    a, b = b, a
+                if rnd.random() < 0.3:
+                    a, b = [a], [b]
             out.append({'kind': 'ops', 'a': A.aval(a), 'b': A.aval(b), 'eq': ev('==', a, b), 'ne': ev('!=', a, b), 'lt': ev('<', a, b),
                         'le': ev('<=', a, b), 'gt': ev('>', a, b), 'ge': ev('>=', a, b), 'cmp': sc(a, b)})
         elif k < 0.45:
